@@ -27,5 +27,5 @@ echo "== ./check $ID against the scratch copy of /repo with the change applied"
 #  a sweep running against /repo is not disturbed; tools/seeded_all.sh applies to /repo proper)
 OUT=$(VERIF_REPO="$D" ./check "$ID" --tier ${SEED_TIER:-quick} 2>&1); RC=$?
 git checkout -- evidence/$ID.json 2>/dev/null
-echo "$OUT" | grep -E "VIOLATION|INCONCLUSIVE|OK property|observed" | head -6; echo "$OUT" | grep "key=" | head -4 | cut -c1-400
+echo "$OUT" | grep -a -E "VIOLATION|INCONCLUSIVE|OK property|observed" | head -6; echo "$OUT" | grep -a "key=" | head -4 | cut -c1-400
 echo "RESULT id=$ID demo_clean_exit=$r0 demo_seeded_exit=$r1 check_rc=$RC"
